@@ -19,8 +19,8 @@ theorem fresh_unowned {m : HMem} (hc : MemCore m) {e : Nat} (he : m.fresh ≤ e)
     have := hc.ltf h' hh' e ((hc.own e h' hh').1 ho)
     omega
 
-theorem push_spec {cmp} (hs : SWO cmp) {m : HMem} {h : Nat} (hh : h < 2) (hok : MemOK cmp m) (x : Int) :
-    ∃ m', m.push cmp h x = some (m', m.fresh) ∧ MemOK cmp m' ∧
+theorem push_spec {cm : Nat → Int → Int → Bool} {m : HMem} {h : Nat} (hs : SWO (cm h)) (hh : h < 2) (hok : MemOK cm m) (x : Int) :
+    ∃ m', m.push (cm h) h x = some (m', m.fresh) ∧ MemOK cm m' ∧
       (m'.arr h).Perm (m.fresh :: m.arr h) ∧ m'.arr (oth h) = m.arr (oth h) ∧
       m'.val = m.val.set m.fresh x ∧ m'.fresh = m.fresh + 1 := by
   let m1 : HMem := { m with fresh := m.fresh + 1, val := m.val.set m.fresh x }
@@ -32,10 +32,10 @@ theorem push_spec {cmp} (hs : SWO cmp) {m : HMem} {h : Nat} (hh : h < 2) (hok : 
     intro e hne hf ho
     have hf' : e < m.fresh + 1 := hf
     exact hok.left e trivial (by omega) ho
-  have ho : ∀ h', h' < 2 → HeapOrd cmp m1 h' := by
+  have ho : ∀ h', h' < 2 → HeapOrd (cm h') m1 h' := by
     intro h' hh'
     rw [heapOrd_iff]
-    refine ordAt_congr (m := m) rfl ?_ ((heapOrd_iff cmp m h').1 (hok.ord h' hh'))
+    refine ordAt_congr (m := m) rfl ?_ ((heapOrd_iff (cm h') m h').1 (hok.ord h' hh'))
     intro e he
     have := hc0.ltf h' hh' e he
     show (m.val.set m.fresh x).get e = _
@@ -46,7 +46,7 @@ theorem push_spec {cmp} (hs : SWO cmp) {m : HMem} {h : Nat} (hh : h < 2) (hok : 
     pushElement_core hs (m := m1) (e := m.fresh) hh hc hl ho (Nat.lt_succ_self _)
       (fresh_unowned hc0 (Nat.le_refl _))
   refine ⟨m', ?_, hok', hperm, hoth, hval, hfresh⟩
-  show (m1.pushElement cmp h m.fresh).map (fun m2 => (m2, m.fresh)) = _
+  show (m1.pushElement (cm h) h m.fresh).map (fun m2 => (m2, m.fresh)) = _
   rw [hrun]; rfl
 
 /-! ### `Init` -/
@@ -140,9 +140,20 @@ theorem allocInit_spec (h : Nat) : ∀ (vs : List Int) (i : Nat) (m : HMem) (acc
         · have : ¬ (m.fresh ≤ e ∧ e < m.fresh + (vs.length + 1)) := by omega
           simp [c1, c2, this]
 
-theorem init_spec {cmp} (hs : SWO cmp) {m : HMem} {h : Nat} (hh : h < 2) (hok : MemOK cmp m)
+/-- `h.cmp = c` in a comparator table -/
+def updC (cm : Nat → Int → Int → Bool) (h : Nat) (c : Int → Int → Bool) : Nat → Int → Int → Bool :=
+  fun h' => if h' = h then c else cm h'
+
+theorem updC_self (cm : Nat → Int → Int → Bool) (h : Nat) (c : Int → Int → Bool) : updC cm h c h = c := by
+  simp [updC]
+
+theorem updC_oth {h : Nat} (hh : h < 2) {cm : Nat → Int → Int → Bool} {c : Int → Int → Bool} :
+    updC cm h c (oth h) = cm (oth h) := by
+  simp [updC, oth_ne hh]
+
+theorem init_spec {cm : Nat → Int → Int → Bool} {cmp} (hs : SWO cmp) {m : HMem} {h : Nat} (hh : h < 2) (hok : MemOK cm m)
     (vs : List Int) :
-    ∃ m', m.init cmp h vs = some m' ∧ MemOK cmp m' ∧
+    ∃ m', m.init cmp h vs = some m' ∧ MemOK (updC cm h cmp) m' ∧
       (m'.arr h).Perm (List.range' m.fresh vs.length) ∧ m'.arr (oth h) = m.arr (oth h) ∧
       m'.fresh = m.fresh + vs.length ∧
       (∀ e, m'.val.get e = if m.fresh ≤ e ∧ e < m.fresh + vs.length then vs.getD (e - m.fresh) 0
@@ -260,9 +271,9 @@ theorem init_spec {cmp} (hs : SWO cmp) {m : HMem} {h : Nat} (hh : h < 2) (hok : 
       · simp only [c3, if_false] at heo ⊢
         rw [F2] at hef
         exact hok.left e trivial (by omega) heo
-  have ho2 : HeapOrd cmp m2 (oth h) := by
+  have ho2 : HeapOrd (cm (oth h)) m2 (oth h) := by
     rw [heapOrd_iff]
-    refine ordAt_congr (m := m) O2 ?_ ((heapOrd_iff cmp m (oth h)).1 (hok.ord _ (oth_lt2 h)))
+    refine ordAt_congr (m := m) O2 ?_ ((heapOrd_iff (cm (oth h)) m (oth h)).1 (hok.ord _ (oth_lt2 h)))
     intro e he
     rw [VAL2 e, if_neg (oldlt _ (oth_lt2 h) e he)]
   have hs' := cmpId_swo hs m2.val
@@ -271,18 +282,19 @@ theorem init_spec {cmp} (hs : SWO cmp) {m : HMem} {h : Nat} (hh : h < 2) (hok : 
     simp [A2]
   rw [hlenI] at hb
   obtain ⟨m', hrun, R⟩ := build_transfer (cmp := cmp) (SiftRel.refl hI2) hb
-  refine ⟨m', hrun0.trans hrun, sift_memOK hh hc2 hl2 ho2 R hheap', ?_, R.other.trans O2,
+  refine ⟨m', hrun0.trans hrun, sift_memOK (c := updC cm h cmp) hh hc2 hl2 (by rw [updC_oth hh]; exact ho2) R
+      (by rw [updC_self]; exact hheap'), ?_, R.other.trans O2,
     R.fresh.trans F2, ?_⟩
   · exact R.perm.trans (by rw [A2])
   · intro e; rw [R.val]; exact VAL2 e
 
 /-! ### `PopAll` -/
 
-theorem popAll_spec {cmp} (hs : SWO cmp) {h : Nat} (hh : h < 2) : ∀ (n : Nat) (m : HMem),
-    (m.arr h).length = n → MemOK cmp m →
-    ∃ m' xs, HMem.popAll cmp h (n + 1) m = some (m', xs) ∧ MemOK cmp m' ∧ m'.arr h = [] ∧
+theorem popAll_spec {cm : Nat → Int → Int → Bool} {h : Nat} (hs : SWO (cm h)) (hh : h < 2) : ∀ (n : Nat) (m : HMem),
+    (m.arr h).length = n → MemOK cm m →
+    ∃ m' xs, HMem.popAll (cm h) h (n + 1) m = some (m', xs) ∧ MemOK cm m' ∧ m'.arr h = [] ∧
       m'.arr (oth h) = m.arr (oth h) ∧ m'.val = m.val ∧ m'.fresh = m.fresh ∧
-      xs.Perm ((m.arr h).map m.val.get) ∧ xs.Pairwise (fun a b => cmp b a = false) := by
+      xs.Perm ((m.arr h).map m.val.get) ∧ xs.Pairwise (fun a b => (cm h) b a = false) := by
   intro n
   induction n with
   | zero =>
